@@ -527,6 +527,55 @@ macro_rules! perkey_ops {
                 }
             }
         }
+        // the `_cutoff` variants with a cutoff that suppresses *unequal* values (a tolerance, which
+        // is not even transitive): the per-key function of a key is re-run exactly when that
+        // key's value moved by more than the tolerance since the operator last looked at it
+        for filt in [false, true] {
+            let id = $ops.len();
+            let l = $log.clone();
+            let user = move |k: &i64, v: Incr<i64>| -> Incr<i64> {
+                l.borrow_mut().push((id, *k, "builder"));
+                let key = *k;
+                let l2 = l.clone();
+                v.map(move |x| {
+                    l2.borrow_mut().push((id, key, "inner"));
+                    x * 3 + key
+                })
+            };
+            fn tol(a: &i64, b: &i64) -> bool {
+                (a - b).abs() <= 1
+            }
+            // (input as of the last round in which the operator was computed, value each key's function last ran with)
+            let state: Rc<RefCell<(B, B)>> = Rc::new(RefCell::new((B::new(), B::new())));
+            let expected = move |i: &Inputs| {
+                let mut st = state.borrow_mut();
+                let (prev, seen) = &mut *st;
+                seen.retain(|k, _| i.left.contains_key(k));
+                for (k, v) in &i.left {
+                    match prev.get(k) {
+                        Some(p) if seen.contains_key(k) => {
+                            if !tol(p, v) {
+                                seen.insert(*k, *v);
+                            }
+                        }
+                        _ => {
+                            seen.insert(*k, *v);
+                        }
+                    }
+                }
+                *prev = i.left.clone();
+                Out::Map(seen.iter().map(|(k, s)| (*k, s * 3 + k)).filter(|(_, x)| !filt || x % 2 == 0).collect())
+            };
+            let kind = OpKind::PerKey { uses_outer: false, ignores_input: false };
+            if !filt {
+                let node = $input.incr_mapi_cutoff(user, Cutoff::Fn(tol));
+                op($ops, format!("incr_mapi_cutoff<{}>(tolerance)", $name), kind, "C16", node, $conv, expected);
+            } else {
+                let mut user = user;
+                let node = $input.incr_filter_mapi_cutoff(move |k: &i64, v: Incr<i64>| user(k, v).map(|x| if x % 2 == 0 { Some(*x) } else { None }), Cutoff::Fn(tol));
+                op($ops, format!("incr_filter_mapi_cutoff<{}>(tolerance)", $name), kind, "C16", node, $conv, expected);
+            }
+        }
     }};
 }
 
